@@ -183,6 +183,7 @@ func tryPartial(env Env, nodes []ast.IsNode,
 	var values []types.Value
 	ok := true
 	orig := slices.Clone(nodes)
+	var held []int // operands replaced by a value that still holds a variable (navigating nodes only)
 	// A record or set that still holds a variable can be navigated (attribute access, has)
 	// or embedded in a literal; any other operation would use the placeholder instead of the
 	// value it stands for, and a residual must not carry the placeholder either (a later
@@ -200,9 +201,12 @@ func tryPartial(env Env, nodes []ast.IsNode,
 		} else if err != nil {
 			return nil, err
 		}
-		if v, vok := n.(ast.NodeValue); vok && !navigates && holdsVariable(v.Value) {
-			ok = false
-			continue
+		if v, vok := n.(ast.NodeValue); vok && holdsVariable(v.Value) {
+			if !navigates {
+				ok = false
+				continue
+			}
+			held = append(held, i)
 		}
 		nodes[i] = n
 		if !ok {
@@ -228,6 +232,10 @@ func tryPartial(env Env, nodes []ast.IsNode,
 			return nil, errIgnore
 		}
 		return ast.NodeValue{Value: v}, nil
+	}
+	// the residual path: an operand whose value holds the placeholder goes back to what was written
+	for _, i := range held {
+		nodes[i] = orig[i]
 	}
 	return mkNode(nodes), nil
 }
@@ -474,6 +482,13 @@ func partialIfThenElse(env Env, v ast.NodeTypeIfThenElse) (ast.IsNode, error) {
 		return nil, elseErr
 	} else if elseErr != nil && !errors.Is(elseErr, errVariable) {
 		elseNode = extError(elseErr)
+	}
+	// a branch that reduced to a collection still holding a variable stays as written (see tryPartial)
+	if tv, ok := thenNode.(ast.NodeValue); ok && holdsVariable(tv.Value) {
+		thenNode = v.Then
+	}
+	if ev, ok := elseNode.(ast.NodeValue); ok && holdsVariable(ev.Value) {
+		elseNode = v.Else
 	}
 	return ast.NodeTypeIfThenElse{If: ifNode, Then: thenNode, Else: elseNode}, nil
 }
